@@ -650,11 +650,11 @@ func genHistValue(t *rapid.T) *GoSpec {
 
 var (
 	inputNames = []string{"a", "a", "a", "a", "a", "a", "a", "a", "a", "a", "b", "b", "b", "b", "b", "b", "b", "b", "b", "b",
-		"c", "c", "c", "c", "c", "c", "x", "y", "z"}
+		"c", "c", "c", "c", "c", "c", "x", "y", "z", "len", "len", "format"} // len, format: a host variable may be named like a builtin function
 	opsWithObj = []string{"add", "add", "remove", "compile", "compile", "srun", "set", "set", "set", "set", "set",
 		"run", "run", "run", "run", "run", "get", "get", "get", "getall", "isdef", "clone", "clone"}
 	opsNoObj = []string{"add", "add", "add", "remove", "compile", "compile", "compile", "srun"}
-	anyNames   = []string{"a", "b", "c", "x", "y", "a", "b", "x", "t", "f", "z"}
+	anyNames   = []string{"a", "b", "c", "x", "y", "a", "b", "x", "t", "f", "z", "len", "format"}
 )
 
 func TestHistories(t *testing.T) {
